@@ -5,3 +5,5 @@ import WindVerif.Props.C08
 import WindVerif.Props.C09
 import WindVerif.Props.C10
 import WindVerif.Props.C16
+import WindVerif.Props.C15
+import WindVerif.Props.C17
